@@ -265,6 +265,9 @@ final outcome. non-trivial = >= 2 requests, or the bound hit exactly, or a relat
             // exactly at the bound / one beyond it
             2 => (start.clone(), 0u32..9, proptest::collection::vec(good_hop.clone(), 10), terminal.clone())
                 .prop_map(|(start, max, hops, terminal)| Case { start, hops: hops.into_iter().take(max as usize).collect(), terminal, max_redirections: max, follow: true, via_proxy: false, method: 0, send_twice: false, drop_at: None }),
+            // long chains under a large bound: the bound is what the caller set, whatever its size
+            1 => (start.clone(), proptest::collection::vec(good_hop.clone(), 19..38), terminal.clone(), prop_oneof![Just(19u32), Just(20), Just(21), Just(30), Just(37), Just(64), Just(1000)])
+                .prop_map(|(start, hops, terminal, max_redirections)| Case { start, hops, terminal, max_redirections, follow: true, via_proxy: false, method: 0, send_twice: false, drop_at: None }),
             2 => (start, 0u32..9, proptest::collection::vec(good_hop, 10), terminal)
                 .prop_map(|(start, max, hops, terminal)| Case { start, hops: hops.into_iter().take(max as usize + 1).collect(), terminal, max_redirections: max, follow: true, via_proxy: false, method: 0, send_twice: false, drop_at: None }),
         ]
